@@ -3302,6 +3302,13 @@ type GroupConcatExpr struct {
 
 // Format formats the node
 func (node *GroupConcatExpr) Format(buf *TrackedBuffer) {
+	const prefix, suffix = " separator '", "'"
+	if strings.HasPrefix(node.Separator, prefix) && strings.HasSuffix(node.Separator, suffix) && len(node.Separator) >= len(prefix)+len(suffix) {
+		// The grammar stores the decoded separator between bare quotes: escape it again.
+		sep := node.Separator[len(prefix) : len(node.Separator)-len(suffix)]
+		buf.Myprintf("group_concat(%s%v%v separator %v)", node.Distinct, node.Exprs, node.OrderBy, NewStrVal([]byte(sep)))
+		return
+	}
 	buf.Myprintf("group_concat(%s%v%v%s)", node.Distinct, node.Exprs, node.OrderBy, node.Separator)
 }
 
